@@ -33,6 +33,7 @@ sets = [
     ("C55", lambda: prolog.replay_hex_escapes([])),
     ("C55canon", lambda: prolog.replay_canonical([])),
     ("numcmp", lambda: prolog.replay_number_comparisons([], "C04")),
+    ("C10", lambda: prolog.replay_unification([])),
 ]
 only = sys.argv[1:]
 bad = 0
